@@ -42,6 +42,54 @@ def compare(case, impl, model):
     return impl == model
 
 
+PAR_DRIVER = r'''#!/usr/bin/env python3
+# evaluates the extracted model on the cases of stdin: results are cached per case line (debug and release produce the same
+# cases, the model is evaluated once) and the misses are spread over several driver processes
+import hashlib, os, subprocess, sys
+DRV, CACHE, JOBS = sys.argv[1], sys.argv[2], int(sys.argv[3])
+cases = sys.stdin.read().split("\\n")
+if cases and cases[-1] == "":
+    cases.pop()
+known = {}
+if os.path.exists(CACHE):
+    for l in open(CACHE, errors="replace"):
+        k, _, v = l.rstrip("\\n").partition(" ")
+        known[k] = v
+keys = [hashlib.sha1(c.encode()).hexdigest() for c in cases]
+miss = [i for i, k in enumerate(keys) if k not in known]
+chunks = [miss[j::JOBS] for j in range(JOBS)]
+procs = []
+for ch in chunks:
+    if not ch:
+        continue
+    p = subprocess.Popen([DRV], stdin=subprocess.PIPE, stdout=subprocess.PIPE, text=True)
+    procs.append((ch, p))
+import threading
+outs = {}
+def feed(ch, p):
+    o, _ = p.communicate("\\n".join(cases[i] for i in ch) + "\\n")
+    outs[id(p)] = o.split("\\n")
+ths = [threading.Thread(target=feed, args=(ch, p)) for ch, p in procs]
+for t in ths: t.start()
+for t in ths: t.join()
+bad = False
+with open(CACHE, "a") as f:
+    for ch, p in procs:
+        res = outs[id(p)]
+        if res and res[-1] == "":
+            res.pop()
+        if p.returncode != 0 or len(res) != len(ch):
+            bad = True
+            continue
+        for i, r in zip(ch, res):
+            known[keys[i]] = r
+            f.write(keys[i] + " " + r + "\\n")
+if bad:
+    sys.exit(3)
+sys.stdout.write("".join(known[k] + "\\n" for k in keys))
+'''
+
+
 def run(ctx):
     quick = ctx.tier == "quick"
     load_open_findings(ctx)
@@ -79,6 +127,20 @@ def run(ctx):
             f.write("#!/bin/sh\nulimit -s unlimited 2>/dev/null || ulimit -s 4000000 2>/dev/null\nexec %s\n" % drv)
         os.chmod(wrapper, os.stat(wrapper).st_mode | stat.S_IXUSR | stat.S_IXGRP | stat.S_IXOTH)
         drv = wrapper
+    if drv:
+        # one evaluation of the model per distinct case (both profiles share them), spread over several processes
+        os.makedirs(os.path.join(vcheck.CACHE, "c06"), exist_ok=True)
+        par = os.path.join(vcheck.CACHE, "c06", "driver_par.py")
+        with open(par, "w") as f:
+            f.write(PAR_DRIVER)
+        mcache = os.path.join(vcheck.CACHE, "c06", f"model-results-{os.getpid()}.txt")
+        if os.path.exists(mcache):
+            os.remove(mcache)
+        wrapper2 = os.path.join(vcheck.CACHE, "c06", "driver_par.sh")
+        with open(wrapper2, "w") as f:
+            f.write("#!/bin/sh\nexec python3 %s %s %s 6\n" % (par, drv, mcache))
+        os.chmod(wrapper2, os.stat(wrapper2).st_mode | stat.S_IXUSR | stat.S_IXGRP | stat.S_IXOTH)
+        drv = wrapper2
     # valid proofs are generated once by the release build (the debug prover trips debug-only assertions) and mutated by both profiles
     rel = ctx.build_harness("c06", "release")
     cdir = os.path.join(vcheck.CACHE, "c06")
@@ -143,6 +205,10 @@ def run(ctx):
                 ctx.evaluations += int(line.split()[0].split("=")[1])
         ctx.ob(f"falsifier-ran:{profile}", rc == 0 and summary != "", out[-300:] if rc else "no summary line")
         ctx.notes.setdefault("falsifier", {})[profile] = {"budget": budget, "reported": nfail, "summary": summary}
+    try:
+        os.remove(os.path.join(vcheck.CACHE, "c06", f"model-results-{os.getpid()}.txt"))
+    except OSError:
+        pass
     ctx.trusted.insert(0, "Coq 8.16.1 kernel + vm_compute (no native_compute); Print Assumptions under every theorem")
     ctx.trusted.append("hand-written models coq/Model/Untrusted.v (typed parsers, verifier control flow on shapes, allocation accounting) and "
                        "coq/Model/Codec.v (byte readers, C12), tied to /repo by the per-run correspondence only (no translator)")
